@@ -361,24 +361,35 @@ def run(ctx):
 
     # ---- C01.5 group inventory -------------------------------------------------------------------
     n_groups = 0
+    seen_terms = set()
     for f, paths in ((f_arg, arg_paths), (f_msg, msg_paths)):
         seen = set()
         for p in paths:
             for e in p.events:
                 if e.kind == 'call' and e.ftext and e.ftext.endswith('.group'):
                     m = re.search(r'\.(\w+)\.(?:match|search|fullmatch)\(', e.ftext)
-                    gname = e.args[0].value if e.args and isinstance(e.args[0], ast.Constant) else None
-                    if not m or m.group(1) not in pats or gname is None:
+                    gnames = [a_.value for a_ in e.args if isinstance(a_, ast.Constant) and isinstance(a_.value, str)]
+                    if not m or m.group(1) not in pats or not gnames or len(gnames) != len(e.args):
                         raise AnalysisError('C01.5: cannot attribute %s to a compiled pattern' % e.text)
-                    k = (m.group(1), gname)
-                    if k in seen:
-                        continue
-                    seen.add(k)
-                    n_groups += 1
-                    ctx.check(gname in rx.group_names(pats[m.group(1)][0]), 'C01.5', 'group:%s.%s' % k, f.loc(e.node),
-                              "group %r exists in %s" % (gname, m.group(1)),
-                              "match.group(%r) names no group of %s -> IndexError on this branch" % (gname, m.group(1)))
-    ctx.floor('C01.5', n_groups, 14, 'match.group() uses')
+                    for gname in gnames:
+                        k = (m.group(1), gname)
+                        if k in seen:
+                            continue
+                        seen.add(k)
+                        n_groups += 1
+                        ctx.check(gname in rx.group_names(pats[m.group(1)][0]), 'C01.5', 'group:%s.%s' % k, f.loc(e.node),
+                                  "group %r exists in %s" % (gname, m.group(1)),
+                                  "match.group(%r) names no group of %s -> IndexError on this branch" % (gname, m.group(1)))
+    # group reads written as m['name'] appear in the terms (not as call events): count those as well
+    for f, paths in ((f_arg, arg_paths), (f_msg, msg_paths)):
+        for p in paths:
+            for src in [a.text for a, v in p.decisions] + ([norm(p.outcome[1])] if p.outcome[0] == 'return' else []):
+                for pm, gname in re.findall(r"\.(\w+)\.(?:match|search|fullmatch)\([^()]*\)\.group\('(\w+)'\)", src):
+                    if pm in pats and (pm, gname, 'term') not in seen_terms:
+                        seen_terms.add((pm, gname, 'term'))
+                        ctx.check(gname in rx.group_names(pats[pm][0]), 'C01.5', 'group:%s.%s' % (pm, gname), f.loc(), "group %r exists in %s" % (gname, pm),
+                                  "match[%r] names no group of %s -> IndexError on this branch" % (gname, pm))
+    ctx.floor('C01.5', len({(a_, b_) for a_, b_, _ in seen_terms}) + n_groups, 10, 'match.group() uses')
 
     # ---- C01.6 / C01.7 / C01.10 line patterns, direction ---------------------------------------
     maxargs = 20 if ctx.tier == 'thorough' else 3
